@@ -516,3 +516,595 @@ Proof. reflexivity. Qed.
 Lemma body_map32 : forall cf pv' Lz rest k,
   mp_body cf pv' Lz None (mk (bz 0xDF :: rest) k) = hdr_then 4 (mk rest (k + 1)) (map_payload pv' Lz).
 Proof. reflexivity. Qed.
+
+Lemma hdr_then_be : forall w n rest k K, 0 <= n < 2 ^ (8 * Z.of_nat w) ->
+  hdr_then w (mk (be_bytes w n ++ rest) k) K = K n (mk rest (k + N.of_nat w)).
+Proof.
+  intros w n rest k K H. unfold hdr_then.
+  rewrite (read_n_app' w) by apply be_bytes_length.
+  rewrite be_value_be_bytes by exact H. reflexivity.
+Qed.
+
+(* ------------------------------------------------------------------------------------- *)
+(* Part 3 — strings and headers *)
+
+Lemma str_header_body : forall cf pv' Lz n rest k, 0 <= n < 2 ^ 32 ->
+  mp_body cf pv' Lz None (mk (mp_str_header n ++ rest) k) =
+    str_payload n (mk rest (k + N.of_nat (length (mp_str_header n)))).
+Proof.
+  intros cf pv' Lz n rest k H. unfold mp_str_header.
+  destruct (Z.ltb_spec n 0x20) as [H1|H1].
+  { cbn [app length]. apply body_fixstr. lia. }
+  destruct (Z.ltb_spec n 0x100) as [H2|H2].
+  { cbn [app length]. rewrite body_str8, hdr_then_be, be_bytes_length, reads_assoc; [reflexivity|].
+    change (2 ^ (8 * Z.of_nat 1)) with 256. lia. }
+  destruct (Z.ltb_spec n 0x10000) as [H3|H3].
+  { cbn [app length]. rewrite body_str16, hdr_then_be, be_bytes_length, reads_assoc; [reflexivity|].
+    change (2 ^ (8 * Z.of_nat 2)) with 65536. lia. }
+  cbn [app length]. rewrite body_str32, hdr_then_be, be_bytes_length, reads_assoc; [reflexivity|].
+  change (2 ^ (8 * Z.of_nat 4)) with (2 ^ 32). lia.
+Qed.
+
+Lemma arr_header_body : forall cf pv' Lz n rest k, 0 <= n < 2 ^ 32 ->
+  mp_body cf pv' Lz None (mk (mp_arr_header n ++ rest) k) =
+    arr_payload pv' Lz n (mk rest (k + N.of_nat (length (mp_arr_header n)))).
+Proof.
+  intros cf pv' Lz n rest k H. unfold mp_arr_header.
+  destruct (Z.ltb_spec n 0x10) as [H1|H1].
+  { cbn [app length]. apply body_fixarr. lia. }
+  destruct (Z.ltb_spec n 0x10000) as [H3|H3].
+  { cbn [app length]. rewrite body_arr16, hdr_then_be, be_bytes_length, reads_assoc; [reflexivity|].
+    change (2 ^ (8 * Z.of_nat 2)) with 65536. lia. }
+  cbn [app length]. rewrite body_arr32, hdr_then_be, be_bytes_length, reads_assoc; [reflexivity|].
+  change (2 ^ (8 * Z.of_nat 4)) with (2 ^ 32). lia.
+Qed.
+
+Lemma map_header_body : forall cf pv' Lz n rest k, 0 <= n < 2 ^ 32 ->
+  mp_body cf pv' Lz None (mk (mp_map_header n ++ rest) k) =
+    map_payload pv' Lz n (mk rest (k + N.of_nat (length (mp_map_header n)))).
+Proof.
+  intros cf pv' Lz n rest k H. unfold mp_map_header.
+  destruct (Z.ltb_spec n 0x10) as [H1|H1].
+  { cbn [app length]. apply body_fixmap. lia. }
+  destruct (Z.ltb_spec n 0x10000) as [H3|H3].
+  { cbn [app length]. rewrite body_map16, hdr_then_be, be_bytes_length, reads_assoc; [reflexivity|].
+    change (2 ^ (8 * Z.of_nat 2)) with 65536. lia. }
+  cbn [app length]. rewrite body_map32, hdr_then_be, be_bytes_length, reads_assoc; [reflexivity|].
+  change (2 ^ (8 * Z.of_nat 4)) with (2 ^ 32). lia.
+Qed.
+
+Lemma str_payload_rt : forall s rest k, Z.of_nat (length s) <= max_string_length ->
+  str_payload (Z.of_nat (length s)) (mk (s ++ rest) k) =
+    (Ok, JStr s, mk rest (k + N.of_nat (length s))).
+Proof.
+  intros s rest k H. unfold str_payload.
+  destruct (Z.ltb_spec max_string_length (Z.of_nat (length s))) as [H1|_]; [lia|].
+  rewrite read_z_app by reflexivity. reflexivity.
+Qed.
+
+Lemma reads_app : forall k a b, (k + N.of_nat a + N.of_nat b = k + N.of_nat (a + b))%N.
+Proof. intros. lia. Qed.
+
+Lemma mp_str_body : forall cf pv' Lz s rest k, Z.of_nat (length s) <= max_string_length ->
+  mp_body cf pv' Lz None (mk (mp_str s ++ rest) k) =
+    (Ok, JStr s, mk rest (k + N.of_nat (length (mp_str s)))).
+Proof.
+  intros cf pv' Lz s rest k H. unfold mp_str. rewrite <- app_assoc.
+  rewrite str_header_body by (unfold max_string_length in H; lia).
+  rewrite str_payload_rt by exact H. rewrite reads_app, app_length. reflexivity.
+Qed.
+
+Theorem mp_str_roundtrip : forall cf L s rest, Forall (fun b => (b < 256)%N) s ->
+  Z.of_nat (length s) <= max_string_length ->
+  mp_parse cf L None true {| m_rest := mp_str s ++ rest; m_reads := 0 |}
+    = (Ok, JStr s, {| m_rest := rest; m_reads := N.of_nat (length (mp_str s)) |}).
+Proof.
+  intros cf L s rest _ H. rewrite mp_parse_eq.
+  exact (mp_str_body cf (pv_of cf L) (is_O L) s rest 0%N H).
+Qed.
+
+(* header widths: the narrowest header that holds the count *)
+Theorem mp_str_header_length : forall n,
+  length (mp_str_header n) =
+    (if n <? 32 then 1%nat else if n <? 256 then 2%nat else if n <? 65536 then 3%nat else 5%nat).
+Proof.
+  intros n. unfold mp_str_header.
+  destruct (n <? 32); [reflexivity|]. destruct (n <? 256); [reflexivity|].
+  destruct (n <? 65536); reflexivity.
+Qed.
+
+Theorem mp_str_header_first : forall n,
+  hd 0%N (mp_str_header n) =
+    (if n <? 32 then bz (0xA0 + n) else if n <? 256 then 0xD9%N else if n <? 65536 then 0xDA%N
+     else 0xDB%N).
+Proof.
+  intros n. unfold mp_str_header.
+  destruct (n <? 32); [reflexivity|]. destruct (n <? 256); [reflexivity|].
+  destruct (n <? 65536); reflexivity.
+Qed.
+
+Theorem mp_arr_header_length : forall n,
+  length (mp_arr_header n) = (if n <? 16 then 1%nat else if n <? 65536 then 3%nat else 5%nat).
+Proof.
+  intros n. unfold mp_arr_header. destruct (n <? 16); [reflexivity|]. destruct (n <? 65536); reflexivity.
+Qed.
+
+Theorem mp_arr_header_first : forall n,
+  hd 0%N (mp_arr_header n) =
+    (if n <? 16 then bz (0x90 + n) else if n <? 65536 then 0xDC%N else 0xDD%N).
+Proof.
+  intros n. unfold mp_arr_header. destruct (n <? 16); [reflexivity|]. destruct (n <? 65536); reflexivity.
+Qed.
+
+Theorem mp_map_header_length : forall n,
+  length (mp_map_header n) = (if n <? 16 then 1%nat else if n <? 65536 then 3%nat else 5%nat).
+Proof.
+  intros n. unfold mp_map_header. destruct (n <? 16); [reflexivity|]. destruct (n <? 65536); reflexivity.
+Qed.
+
+Theorem mp_map_header_first : forall n,
+  hd 0%N (mp_map_header n) =
+    (if n <? 16 then bz (0x80 + n) else if n <? 65536 then 0xDE%N else 0xDF%N).
+Proof.
+  intros n. unfold mp_map_header. destruct (n <? 16); [reflexivity|]. destruct (n <? 65536); reflexivity.
+Qed.
+
+(* the announced size is recovered from the header bytes after the code *)
+Theorem mp_str_header_size : forall n, 0 <= n < 2 ^ 32 ->
+  (if n <? 32 then Z.of_N (hd 0%N (mp_str_header n)) - 0xA0
+   else be_value (tl (mp_str_header n)) 0) = n.
+Proof.
+  intros n H. unfold mp_str_header.
+  destruct (Z.ltb_spec n 32); [cbn [hd]; rewrite bz_id; lia|].
+  destruct (Z.ltb_spec n 256).
+  { cbn [tl]. apply be_value_be_bytes. change (2 ^ (8 * Z.of_nat 1)) with 256. lia. }
+  destruct (Z.ltb_spec n 65536).
+  { cbn [tl]. apply be_value_be_bytes. change (2 ^ (8 * Z.of_nat 2)) with 65536. lia. }
+  cbn [tl]. apply be_value_be_bytes. change (2 ^ (8 * Z.of_nat 4)) with (2 ^ 32). lia.
+Qed.
+
+(* both sides of every boundary *)
+Example str_header_boundaries :
+  mp_str_header 31 = [0xBF]%N /\ mp_str_header 32 = [0xD9; 32]%N /\
+  mp_str_header 255 = [0xD9; 255]%N /\ mp_str_header 256 = [0xDA; 1; 0]%N /\
+  mp_str_header 65535 = [0xDA; 255; 255]%N /\ mp_str_header 65536 = [0xDB; 0; 1; 0; 0]%N.
+Proof. repeat split; reflexivity. Qed.
+
+Example arr_header_boundaries :
+  mp_arr_header 15 = [0x9F]%N /\ mp_arr_header 16 = [0xDC; 0; 16]%N /\
+  mp_arr_header 65535 = [0xDC; 255; 255]%N /\ mp_arr_header 65536 = [0xDD; 0; 1; 0; 0]%N.
+Proof. repeat split; reflexivity. Qed.
+
+Example map_header_boundaries :
+  mp_map_header 15 = [0x8F]%N /\ mp_map_header 16 = [0xDE; 0; 16]%N /\
+  mp_map_header 65535 = [0xDE; 255; 255]%N /\ mp_map_header 65536 = [0xDF; 0; 1; 0; 0]%N.
+Proof. repeat split; reflexivity. Qed.
+
+(* ------------------------------------------------------------------------------------- *)
+(* object keys *)
+
+Definition key_payload (size : Z) (r : mrd) : code * bytes * mrd :=
+  match read_z size r with
+  | (Some s, r) => (Ok, s, r)
+  | (None, r) => (IncompleteInput, [], r)
+  end.
+
+Definition key_hdr_then (w : nat) (r : mrd) : code * bytes * mrd :=
+  match read_n w r with
+  | (Some l, r) =>
+      let size := be_value l 0 in
+      if max_string_length <? size then (NoMemory, [], r) else key_payload size r
+  | (None, r) => (IncompleteInput, [], r)
+  end.
+
+Definition key_facts (n : Z) : bool :=
+  (Z.land (0xA0 + n) 0xE0 =? 0xA0) && (Z.land (0xA0 + n) 0x1F =? n).
+
+Lemma key_fixstr : forall n rest k, 0 <= n < 32 ->
+  mp_read_key (mk (bz (0xA0 + n) :: rest) k) = key_payload n (mk rest (k + 1)).
+Proof.
+  intros n rest k H.
+  assert (F : key_facts n = true).
+  { apply (zall_spec 32 0 key_facts); [vm_compute; reflexivity|lia]. }
+  apply andb_prop in F as [F1 F2]. apply Z.eqb_eq in F2.
+  unfold mp_read_key. rewrite read_1_cons. cbv beta iota zeta.
+  rewrite bz_id by lia. rewrite F1, F2. reflexivity.
+Qed.
+
+Lemma key_str8 : forall rest k, mp_read_key (mk (bz 0xD9 :: rest) k) = key_hdr_then 1 (mk rest (k + 1)).
+Proof. reflexivity. Qed.
+Lemma key_str16 : forall rest k, mp_read_key (mk (bz 0xDA :: rest) k) = key_hdr_then 2 (mk rest (k + 1)).
+Proof. reflexivity. Qed.
+Lemma key_str32 : forall rest k, mp_read_key (mk (bz 0xDB :: rest) k) = key_hdr_then 4 (mk rest (k + 1)).
+Proof. reflexivity. Qed.
+
+Lemma key_hdr_then_be : forall w n rest k, 0 <= n < 2 ^ (8 * Z.of_nat w) -> n <= max_string_length ->
+  key_hdr_then w (mk (be_bytes w n ++ rest) k) = key_payload n (mk rest (k + N.of_nat w)).
+Proof.
+  intros w n rest k H Hm. unfold key_hdr_then.
+  rewrite (read_n_app' w) by apply be_bytes_length. cbv zeta.
+  rewrite be_value_be_bytes by exact H.
+  destruct (Z.ltb_spec max_string_length n); [lia|]. reflexivity.
+Qed.
+
+Lemma key_header : forall n rest k, 0 <= n <= max_string_length ->
+  mp_read_key (mk (mp_str_header n ++ rest) k) =
+    key_payload n (mk rest (k + N.of_nat (length (mp_str_header n)))).
+Proof.
+  intros n rest k H. unfold max_string_length in H. unfold mp_str_header.
+  destruct (Z.ltb_spec n 0x20) as [H1|H1].
+  { cbn [app length]. apply key_fixstr. lia. }
+  destruct (Z.ltb_spec n 0x100) as [H2|H2].
+  { cbn [app length]. rewrite key_str8, key_hdr_then_be, be_bytes_length, reads_assoc;
+      [reflexivity| |unfold max_string_length; lia].
+    change (2 ^ (8 * Z.of_nat 1)) with 256. lia. }
+  destruct (Z.ltb_spec n 0x10000) as [H3|H3].
+  { cbn [app length]. rewrite key_str16, key_hdr_then_be, be_bytes_length, reads_assoc;
+      [reflexivity| |unfold max_string_length; lia].
+    change (2 ^ (8 * Z.of_nat 2)) with 65536. lia. }
+  lia.
+Qed.
+
+Lemma read_key_rt : forall s rest k, Z.of_nat (length s) <= max_string_length ->
+  mp_read_key (mk (mp_str s ++ rest) k) = (Ok, s, mk rest (k + N.of_nat (length (mp_str s)))).
+Proof.
+  intros s rest k H. unfold mp_str. rewrite <- app_assoc.
+  rewrite key_header by lia. unfold key_payload.
+  rewrite read_z_app by reflexivity. rewrite reads_app, app_length. reflexivity.
+Qed.
+
+(* ------------------------------------------------------------------------------------- *)
+(* loops *)
+
+Lemma concat_cons_app : forall (x : bytes) (t : list bytes) (rest : bytes),
+  concat (x :: t) ++ rest = x ++ (concat t ++ rest).
+Proof. intros. cbn [concat]. rewrite <- app_assoc. reflexivity. Qed.
+
+Lemma array_loop_rt : forall (pv : pvT) (norm : jv -> jv) (l : list jv),
+  (forall x, In x l -> forall rest k,
+     pv None true (mk (mp_ser x ++ rest) k) =
+       (Ok, norm x, mk rest (k + N.of_nat (length (mp_ser x))))) ->
+  forall acc rest k,
+    mp_array_loop pv (length l) None true acc (mk (concat (map mp_ser l) ++ rest) k) =
+      (Ok, acc ++ map norm l, mk rest (k + N.of_nat (length (concat (map mp_ser l))))).
+Proof.
+  intros pv norm l. induction l as [|x l IH]; intros Hpv acc rest k.
+  - cbn [length mp_array_loop map concat app]. rewrite app_nil_r, N.add_0_r. reflexivity.
+  - cbn [length mp_array_loop map]. rewrite concat_cons_app. cbn [f_allow].
+    rewrite (Hpv x (or_introl eq_refl)).
+    rewrite IH by (intros y Hy; apply Hpv; right; exact Hy).
+    rewrite <- app_assoc. cbn [app concat]. rewrite reads_app, <- app_length. reflexivity.
+Qed.
+
+Definition ser_member (kv : bytes * jv) : bytes := mp_str (fst kv) ++ mp_ser (snd kv).
+
+Lemma object_loop_rt : forall (pv : pvT) (norm : jv -> jv) (l : list (bytes * jv)),
+  (forall kv, In kv l ->
+     Z.of_nat (length (fst kv)) <= max_string_length /\
+     forall rest k,
+       pv None true (mk (mp_ser (snd kv) ++ rest) k) =
+         (Ok, norm (snd kv), mk rest (k + N.of_nat (length (mp_ser (snd kv)))))) ->
+  forall acc rest k,
+    mp_object_loop pv (length l) None acc (mk (concat (map ser_member l) ++ rest) k) =
+      (Ok, acc ++ map (fun kv => (fst kv, norm (snd kv))) l,
+       mk rest (k + N.of_nat (length (concat (map ser_member l))))).
+Proof.
+  intros pv norm l. induction l as [|x l IH]; intros Hpv acc rest k.
+  - cbn [length mp_object_loop map concat app]. rewrite app_nil_r, N.add_0_r. reflexivity.
+  - cbn [length mp_object_loop map]. rewrite concat_cons_app.
+    destruct (Hpv x (or_introl eq_refl)) as [Hk Hv].
+    unfold ser_member at 1. rewrite <- app_assoc. rewrite read_key_rt by exact Hk.
+    cbn [f_member f_allow]. rewrite Hv.
+    rewrite IH by (intros y Hy; apply Hpv; right; exact Hy).
+    rewrite <- app_assoc. cbn [app concat]. f_equal. f_equal.
+    unfold ser_member. rewrite !app_length. lia.
+Qed.
+
+Lemma concat_length_ge : forall (A : Type) (g : A -> bytes) (l : list A),
+  (forall x, In x l -> (1 <= length (g x))%nat) -> (length l <= length (concat (map g l)))%nat.
+Proof.
+  intros A g l. induction l as [|x l IH]; intros H; cbn [length map concat]; [lia|].
+  rewrite app_length. specialize (H x (or_introl eq_refl)) as Hx.
+  assert (length l <= length (concat (map g l)))%nat by (apply IH; intros y Hy; apply H; right; exact Hy).
+  lia.
+Qed.
+
+Lemma clip_count_exact : forall n l k, (n <= length l)%nat -> clip_count (Z.of_nat n) (mk l k) = n.
+Proof. intros n l k H. unfold clip_count. cbn [mk m_rest]. rewrite Z.min_l by lia. apply Nat2Z.id. Qed.
+
+(* ------------------------------------------------------------------------------------- *)
+(* floats *)
+
+(* the value is a datum of the interchange format: decoding its encoding gives it back *)
+Definition repr_ok (ft : fmt) (f : spec_float) : Prop :=
+  0 <= bits_of_sf ft f < 2 ^ (mw ft + ew ft + 1) /\ sf_of_bits ft (bits_of_sf ft f) = f.
+
+Definition f32_ok (f : spec_float) : Prop :=
+  repr_ok F32 f /\ (f32_fits_i64 f = true -> - 2 ^ 63 <= f_trunc f < 2 ^ 64).
+
+Definition f64_ok (f : spec_float) : Prop := repr_ok F64 f /\ f32_ok (fconv F32 f).
+
+Definition mp_norm_f32 (f : spec_float) : jv :=
+  if f32_fits_i64 f then
+    let t := f_trunc f in
+    if f_eq f (f_of_Z F32 t) then JInt t else JFloat f
+  else JFloat f.
+
+Definition mp_norm_f64 (f : spec_float) : jv :=
+  let v32 := fconv F32 f in
+  if f_eq (fconv F64 v32) f then mp_norm_f32 v32 else jv_of_double true f.
+
+Lemma body_f32 : forall cf pv' Lz rest k,
+  mp_body cf pv' Lz None (mk (bz 0xCA :: rest) k) =
+    match read_n 4 (mk rest (k + 1)) with
+    | (Some l, r) => (Ok, JFloat (sf_of_bits F32 (be_value l 0)), r)
+    | (None, r) => (IncompleteInput, JNull, r)
+    end.
+Proof. reflexivity. Qed.
+
+Lemma body_f64 : forall cf pv' Lz rest k,
+  mp_body cf pv' Lz None (mk (bz 0xCB :: rest) k) =
+    match read_n 8 (mk rest (k + 1)) with
+    | (Some l, r) => (Ok, jv_of_double (use_double cf) (sf_of_bits F64 (be_value l 0)), r)
+    | (None, r) => (IncompleteInput, JNull, r)
+    end.
+Proof. reflexivity. Qed.
+
+Lemma mp_f32_body : forall cf pv' Lz f rest k, f32_ok f ->
+  mp_body cf pv' Lz None (mk (mp_f32 f ++ rest) k) =
+    (Ok, mp_norm_f32 f, mk rest (k + N.of_nat (length (mp_f32 f)))).
+Proof.
+  intros cf pv' Lz f rest k [[Hb Hr] Ht]. unfold mp_f32, mp_norm_f32.
+  destruct (f32_fits_i64 f) eqn:Fit.
+  - cbv zeta. destruct (f_eq f (f_of_Z F32 (f_trunc f))) eqn:E.
+    + apply mp_int_body. apply Ht. reflexivity.
+    + cbn [app length]. rewrite body_f32. rewrite (read_n_app' 4) by apply be_bytes_length.
+      rewrite be_value_be_bytes by exact Hb. rewrite Hr, be_bytes_length, reads_assoc. reflexivity.
+  - cbn [app length]. rewrite body_f32. rewrite (read_n_app' 4) by apply be_bytes_length.
+    rewrite be_value_be_bytes by exact Hb. rewrite Hr, be_bytes_length, reads_assoc. reflexivity.
+Qed.
+
+Lemma mp_f64_body : forall cf pv' Lz f rest k, use_double cf = true -> f64_ok f ->
+  mp_body cf pv' Lz None (mk (mp_f64 f ++ rest) k) =
+    (Ok, mp_norm_f64 f, mk rest (k + N.of_nat (length (mp_f64 f)))).
+Proof.
+  intros cf pv' Lz f rest k UD [[Hb Hr] H32]. unfold mp_f64, mp_norm_f64. cbv zeta.
+  destruct (f_eq (fconv F64 (fconv F32 f)) f) eqn:E.
+  - apply mp_f32_body. exact H32.
+  - cbn [app length]. rewrite body_f64. rewrite (read_n_app' 8) by apply be_bytes_length.
+    rewrite be_value_be_bytes by exact Hb. rewrite Hr, UD, be_bytes_length, reads_assoc. reflexivity.
+Qed.
+
+(* ------------------------------------------------------------------------------------- *)
+(* Part 4 — whole documents *)
+
+Fixpoint mp_norm (v : jv) : jv :=
+  match v with
+  | JFloat f => mp_norm_f32 f
+  | JDouble f => mp_norm_f64 f
+  | JArr l => JArr (map mp_norm l)
+  | JObj l => JObj (map (fun kv => (fst kv, mp_norm (snd kv))) l)
+  | _ => v
+  end.
+
+Definition str_ok (s : bytes) : Prop :=
+  Forall (fun b => (b < 256)%N) s /\ Z.of_nat (length s) <= max_string_length.
+
+Fixpoint mp_ok (v : jv) : Prop :=
+  match v with
+  | JNull | JBool _ => True
+  | JInt z => - 2 ^ 63 <= z < 2 ^ 64
+  | JFloat f => f32_ok f
+  | JDouble f => f64_ok f
+  | JStr s => str_ok s
+  | JRaw _ => False
+  | JArr l => Z.of_nat (length l) < 2 ^ 32 /\ fold_right (fun x P => mp_ok x /\ P) True l
+  | JObj l => Z.of_nat (length l) < 2 ^ 32 /\
+              fold_right (fun kv P => (str_ok (fst kv) /\ mp_ok (snd kv)) /\ P) True l
+  end.
+
+Lemma fold_and_In : forall (A : Type) (Q : A -> Prop) (l : list A),
+  fold_right (fun x P => Q x /\ P) True l -> forall x, In x l -> Q x.
+Proof.
+  intros A Q l. induction l as [|y l IH]; intros H x Hx; cbn in *; [contradiction|].
+  destruct H as [Hy Hl]. destruct Hx as [<-|Hx]; auto.
+Qed.
+
+Lemma nesting_In : forall (A : Type) (g : A -> nat) (l : list A) x, In x l ->
+  (g x <= fold_right (fun x m => Nat.max (g x) m) 0 l)%nat.
+Proof.
+  intros A g l. induction l as [|y l IH]; intros x Hx; cbn in *; [contradiction|].
+  destruct Hx as [<-|Hx]; [lia|]. specialize (IH x Hx). lia.
+Qed.
+
+Lemma mp_int_nonempty : forall z, (1 <= length (mp_int z))%nat.
+Proof.
+  intros z. unfold mp_int, mp_uint.
+  destruct (0 <? z).
+  - destruct (z <=? 0x7F); [cbn; lia|]. destruct (z <=? 0xFF); [cbn; lia|].
+    destruct (z <=? 0xFFFF); [cbn [length]; lia|]. destruct (z <=? 0xFFFFFFFF); cbn [length]; lia.
+  - destruct (-0x20 <=? z); [cbn; lia|]. destruct (-0x80 <=? z); [cbn; lia|].
+    destruct (-0x8000 <=? z); [cbn [length]; lia|]. destruct (-0x80000000 <=? z); cbn [length]; lia.
+Qed.
+
+Lemma mp_f32_nonempty : forall f, (1 <= length (mp_f32 f))%nat.
+Proof.
+  intros f. unfold mp_f32. destruct (f32_fits_i64 f); [cbv zeta; destruct (f_eq _ _)|];
+    try apply mp_int_nonempty; cbn [length]; lia.
+Qed.
+
+Lemma mp_str_nonempty : forall s, (1 <= length (mp_str s))%nat.
+Proof.
+  intros s. unfold mp_str. rewrite app_length, mp_str_header_length.
+  destruct (_ <? 32); [lia|]. destruct (_ <? 256); [lia|]. destruct (_ <? 65536); lia.
+Qed.
+
+Lemma mp_ser_nonempty : forall v, mp_ok v -> (1 <= length (mp_ser v))%nat.
+Proof.
+  intros v H. destruct v; cbn [mp_ser].
+  - cbn; lia.
+  - cbn; lia.
+  - apply mp_int_nonempty.
+  - apply mp_f32_nonempty.
+  - unfold mp_f64. destruct (f_eq _ _); [apply mp_f32_nonempty|cbn [length]; lia].
+  - apply mp_str_nonempty.
+  - destruct H.
+  - rewrite app_length, mp_arr_header_length.
+    destruct (_ <? 16); [lia|]. destruct (_ <? 65536); lia.
+  - rewrite app_length, mp_map_header_length.
+    destruct (_ <? 16); [lia|]. destruct (_ <? 65536); lia.
+Qed.
+
+Lemma body_nil : forall cf pv' Lz rest k,
+  mp_body cf pv' Lz None (mk (bz 0xC0 :: rest) k) = (Ok, JNull, mk rest (k + 1)).
+Proof. reflexivity. Qed.
+Lemma body_false : forall cf pv' Lz rest k,
+  mp_body cf pv' Lz None (mk (bz 0xC2 :: rest) k) = (Ok, JBool false, mk rest (k + 1)).
+Proof. reflexivity. Qed.
+Lemma body_true : forall cf pv' Lz rest k,
+  mp_body cf pv' Lz None (mk (bz 0xC3 :: rest) k) = (Ok, JBool true, mk rest (k + 1)).
+Proof. reflexivity. Qed.
+
+Theorem mp_roundtrip_gen : forall cf, use_double cf = true -> forall L v, mp_ok v ->
+  (nesting v <= L)%nat -> forall rest k,
+  mp_parse cf L None true (mk (mp_ser v ++ rest) k) =
+    (Ok, mp_norm v, mk rest (k + N.of_nat (length (mp_ser v)))).
+Proof.
+  intros cf UD. induction L as [|L IH]; intros v Hok Hn rest k; rewrite mp_parse_eq.
+  - destruct v; cbn [mp_ser mp_norm]; cbn [mp_ok] in Hok.
+    + apply body_nil.
+    + destruct b; [apply body_true|apply body_false].
+    + apply mp_int_body; exact Hok.
+    + apply mp_f32_body; exact Hok.
+    + apply mp_f64_body; assumption.
+    + apply mp_str_body; apply Hok.
+    + destruct Hok.
+    + cbn [nesting] in Hn. lia.
+    + cbn [nesting] in Hn. lia.
+  - destruct v; cbn [mp_ser mp_norm]; cbn [mp_ok] in Hok.
+    + apply body_nil.
+    + destruct b; [apply body_true|apply body_false].
+    + apply mp_int_body; exact Hok.
+    + apply mp_f32_body; exact Hok.
+    + apply mp_f64_body; assumption.
+    + apply mp_str_body; apply Hok.
+    + destruct Hok.
+    + destruct Hok as [Hlen Hall]. cbn [nesting] in Hn. rewrite <- app_assoc.
+      rewrite arr_header_body by lia. unfold arr_payload. cbn [is_O pv_of].
+      rewrite clip_count_exact.
+      2:{ rewrite app_length.
+          pose proof (concat_length_ge jv mp_ser l
+                        (fun x Hx => mp_ser_nonempty x (fold_and_In jv mp_ok l Hall x Hx))). lia. }
+      rewrite (array_loop_rt (mp_parse cf L) mp_norm l).
+      2:{ intros x Hx rest' k'. apply IH.
+          - exact (fold_and_In jv mp_ok l Hall x Hx).
+          - pose proof (nesting_In jv nesting l x Hx). lia. }
+      cbn [app]. rewrite reads_app, app_length. reflexivity.
+    + destruct Hok as [Hlen Hall]. cbn [nesting] in Hn. rewrite <- app_assoc.
+      rewrite map_header_body by lia. unfold map_payload. cbn [is_O pv_of].
+      change (map (fun kv : bytes * jv => mp_str (fst kv) ++ mp_ser (snd kv)) l)
+        with (map ser_member l).
+      pose proof (fold_and_In _ (fun kv => str_ok (fst kv) /\ mp_ok (snd kv)) l Hall) as Hin.
+      rewrite clip_count_exact.
+      2:{ rewrite app_length.
+          assert (length l <= length (concat (map ser_member l)))%nat.
+          { apply concat_length_ge. intros x Hx. unfold ser_member. rewrite app_length.
+            pose proof (mp_str_nonempty (fst x)). lia. }
+          lia. }
+      rewrite (object_loop_rt (mp_parse cf L) mp_norm l).
+      2:{ intros x Hx. destruct (Hin x Hx) as [[_ Hk] Hv]. split; [exact Hk|].
+          intros rest' k'. apply IH; [exact Hv|].
+          pose proof (nesting_In _ (fun kv => nesting (snd kv)) l x Hx). cbv beta in *. lia. }
+      cbn [app]. rewrite reads_app, app_length. reflexivity.
+Qed.
+
+Theorem mp_roundtrip : forall cf v, use_double cf = true -> mp_ok v -> forall L rest,
+  (nesting v <= L)%nat ->
+  mp_parse cf L None true {| m_rest := mp_ser v ++ rest; m_reads := 0 |}
+    = (Ok, mp_norm v, {| m_rest := rest; m_reads := N.of_nat (length (mp_ser v)) |}).
+Proof.
+  intros cf v UD Hok L rest Hn.
+  exact (mp_roundtrip_gen cf UD L v Hok Hn rest 0%N).
+Qed.
+
+Corollary mp_run_roundtrip : forall cf v L, use_double cf = true -> mp_ok v -> (nesting v <= L)%nat ->
+  mp_run cf None L (mp_ser v) =
+    {| mp_err := Ok; mp_doc := mp_norm v;
+       mp_rd := {| m_rest := []; m_reads := N.of_nat (length (mp_ser v)) |} |}.
+Proof.
+  intros cf v L UD Hok Hn. unfold mp_run.
+  pose proof (mp_roundtrip cf v UD Hok L [] Hn) as H. rewrite app_nil_r in H. rewrite H.
+  pose proof (mp_ser_nonempty v Hok) as Hne.
+  destruct (mp_ser v) as [|b t]; [cbn in Hne; lia|]. reflexivity.
+Qed.
+
+(* C16 for MessagePack: the reader stops exactly after one object, whatever follows *)
+Corollary mp_run_roundtrip_trailing : forall cf v L rest, use_double cf = true -> mp_ok v ->
+  (nesting v <= L)%nat ->
+  mp_run cf None L (mp_ser v ++ rest) =
+    {| mp_err := Ok; mp_doc := mp_norm v;
+       mp_rd := {| m_rest := rest; m_reads := N.of_nat (length (mp_ser v)) |} |}.
+Proof.
+  intros cf v L rest UD Hok Hn. unfold mp_run.
+  rewrite (mp_roundtrip cf v UD Hok L rest Hn).
+  pose proof (mp_ser_nonempty v Hok) as Hne.
+  destruct (mp_ser v) as [|b t]; [cbn in Hne; lia|]. reflexivity.
+Qed.
+
+(* re-serialization is byte-identical *)
+Lemma SFcompare_swap : forall a b, SFcompare b a = option_map CompOpp (SFcompare a b).
+Proof.
+  intros a b.
+  destruct a as [sa|sa| |sa ma ea]; destruct b as [sb|sb| |sb mb eb]; cbn [SFcompare option_map];
+    try reflexivity; try (destruct sa; reflexivity); try (destruct sb; reflexivity);
+    try (destruct sa, sb; reflexivity).
+  destruct sa, sb; cbn [CompOpp]; try reflexivity.
+  - rewrite (Z.compare_antisym ea eb). destruct (ea ?= eb); cbn [CompOpp]; try reflexivity.
+    rewrite (Pos.compare_cont_antisym ma mb Eq). reflexivity.
+  - rewrite (Z.compare_antisym ea eb). destruct (ea ?= eb); cbn [CompOpp]; try reflexivity.
+    rewrite (Pos.compare_cont_antisym ma mb Eq). reflexivity.
+Qed.
+
+Lemma f_eq_sym : forall a b, f_eq a b = f_eq b a.
+Proof.
+  intros a b. unfold f_eq. rewrite (SFcompare_swap a b).
+  destruct (SFcompare a b) as [[| |]|]; reflexivity.
+Qed.
+
+Lemma mp_ser_norm_f32 : forall f, mp_ser (mp_norm_f32 f) = mp_f32 f.
+Proof.
+  intros f. unfold mp_norm_f32, mp_f32. destruct (f32_fits_i64 f) eqn:Fit; cbv zeta.
+  - destruct (f_eq f (f_of_Z F32 (f_trunc f))) eqn:E; cbn [mp_ser]; [reflexivity|].
+    unfold mp_f32. rewrite Fit. cbv zeta. rewrite E. reflexivity.
+  - cbn [mp_ser]. unfold mp_f32. rewrite Fit. reflexivity.
+Qed.
+
+Lemma mp_ser_norm_f64 : forall f, mp_ser (mp_norm_f64 f) = mp_f64 f.
+Proof.
+  intros f. unfold mp_norm_f64, mp_f64. cbv zeta.
+  destruct (f_eq (fconv F64 (fconv F32 f)) f) eqn:E.
+  - apply mp_ser_norm_f32.
+  - unfold jv_of_double. cbv zeta. rewrite (f_eq_sym f), E. cbn [mp_ser].
+    unfold mp_f64. cbv zeta. rewrite E. reflexivity.
+Qed.
+
+Lemma mp_fixpoint_gen : forall L v, (nesting v <= L)%nat -> mp_ser (mp_norm v) = mp_ser v.
+Proof.
+  induction L as [|L IH]; intros v Hn.
+  - destruct v; cbn [mp_norm]; try reflexivity;
+      [apply mp_ser_norm_f32|apply mp_ser_norm_f64|cbn [nesting] in Hn; lia|cbn [nesting] in Hn; lia].
+  - destruct v; cbn [mp_norm]; try reflexivity;
+      [apply mp_ser_norm_f32|apply mp_ser_norm_f64| |].
+    + cbn [nesting] in Hn. cbn [mp_ser]. rewrite map_length, map_map.
+      f_equal. f_equal. apply map_ext_in. intros x Hx. apply IH.
+      pose proof (nesting_In jv nesting l x Hx). lia.
+    + cbn [nesting] in Hn. cbn [mp_ser]. rewrite map_length, map_map.
+      f_equal. f_equal. apply map_ext_in. intros x Hx. cbn [fst snd]. f_equal. apply IH.
+      pose proof (nesting_In _ (fun kv => nesting (snd kv)) l x Hx). cbv beta in *. lia.
+Qed.
+
+Corollary mp_fixpoint : forall v, mp_ok v -> mp_ser (mp_norm v) = mp_ser v.
+Proof. intros v _. apply (mp_fixpoint_gen (nesting v)). lia. Qed.
+
+Print Assumptions mp_roundtrip.
+Print Assumptions mp_fixpoint.
